@@ -11,7 +11,7 @@ From Coq Require Import ZArith List Bool.
 From MxlBase Require Import ListX.
 From Core Require Import Sort GenSortFacts Model Cache Query GenQueryFacts.
 From Core Require FnLib.
-From CoreP Require Import Spec ProofsStoich ProofsTop ProofsRhs ExModel.
+From CoreP Require Import Spec ProofsStoich ProofsTop ProofsRhs ProofsUnique ProofsPartition ExModel.
 Import ListNotations.
 
 Theorem C01_facts_pinned : gen_query_facts = mkQueryFacts true true true.
@@ -139,6 +139,53 @@ Theorem C01_fluxes_and_args_read_the_same_table :
 Proof. exact (fluxes_args_same_table gen_sort_facts gen_sc). Qed.
 Print Assumptions C01_fluxes_and_args_read_the_same_table.
 
+(** "fully resolved values" are UNIQUE: for a model whose dependency graph is acyclic (whenever a
+    cache is built: [C02_cache_only_for_acyclic]) two environments that agree on time, the
+    variables, the parameters and the data sets, and in both of which every derived quantity,
+    reaction rate and surrogate is its function applied to the values its named arguments have,
+    agree on every derived quantity, rate and surrogate output.  So [C01_args_fully_resolved]
+    characterises the table of [_get_args] completely: whatever way the values are computed
+    (any evaluation order, any caching), these are the numbers.  No hypothesis on the sorter or
+    the cache: a statement about the specification vocabulary alone. *)
+Theorem C01_resolved_unique :
+  forall fsem fsemN m (e1 e2 : env),
+    Acyclic (base_available m) (map dep_of (to_sort m)) ->
+    lookup time_name e1 = lookup time_name e2 ->
+    (forall x, In x (keys (m_var m)) -> lookup x e1 = lookup x e2) ->
+    (forall p, In p (keys (m_par m)) -> lookup p e1 = lookup p e2) ->
+    (forall k, In k (keys (m_dat m)) -> lookup k e1 = lookup k e2) ->
+    (forall nm cmp, In (nm, cmp) (containers m) ->
+        comp_holds fsem fsemN nm cmp e1 /\ comp_holds fsem fsemN nm cmp e2) ->
+    forall k, In k (keys (m_der m)) \/ In k (keys (m_rxn m)) \/ In k (surrogate_outputs m) ->
+              lookup k e1 = lookup k e2.
+Proof. exact resolved_unique. Qed.
+Print Assumptions C01_resolved_unique.
+
+(** every (flux, variable, coefficient) entry of the model lands in exactly one of the two
+    coefficient tables of the cache ([st_coef] / [dy_coef]: the tables read as partial maps):
+    a numeric coefficient in the static table; a computed coefficient in the static table, as its
+    value, iff all its arguments are frozen (parameters or derived parameters) -- and then that
+    value is the coefficient's value in the table of every query --, otherwise in the dynamic
+    table as the coefficient itself (evaluated at every query). *)
+Theorem C01_static_partition :
+  forall fsem fsemN m c rn ent x cf,
+    WF m -> create_cache fsem fsemN gen_sort_facts m = Val c ->
+    In (rn, ent) (all_rxn_entries m) -> In (x, cf) ent ->
+    match cf with
+    | CStat q => st_coef c x rn = Some q /\ dy_coef c x rn = None
+    | CDyn f args =>
+      ((forall a, In a args -> In a (keys (m_par m)) \/ (In a (keys (m_der m)) /\ OnlyParams m a))
+       /\ dy_coef c x rn = None
+       /\ exists v, st_coef c x rn = Some v
+                    /\ forall vars t e, incl (keys vars) (keys (m_var m)) ->
+                                        get_args_raw fsem fsemN m c vars t = Val e ->
+                                        coef_val fsem cf e = Some v)
+      \/ (~ (forall a, In a args -> In a (keys (m_par m)) \/ (In a (keys (m_der m)) /\ OnlyParams m a))
+          /\ st_coef c x rn = None /\ dy_coef c x rn = Some (f, args))
+    end.
+Proof. exact (static_partition gen_sort_facts gen_sc). Qed.
+Print Assumptions C01_static_partition.
+
 (** non-vacuity: the model of ExModel.v (derived chain 6 -> 7 -> 8, derived 15 reading a data
     set, reaction 9 with a numeric and a computed coefficient, reaction 10 with a state-dependent
     coefficient, 2-output surrogate 11 with flux 12, assignment-defined parameter 2 and variable 4,
@@ -150,7 +197,9 @@ Example C01_nonvacuous :
     /\ call FnLib.fsem FnLib.fsemN ex_model c 3%Z [1; 2; 3]%Z = Val [-13; 129; 0]%Z
     /\ exists e, get_args_raw FnLib.fsem FnLib.fsemN ex_model c [(3%N, 1%Z); (4%N, 2%Z); (5%N, 3%Z)] 3%Z = Val e
          /\ lookup 9%N e = Some 16%Z /\ lookup 10%N e = Some 1%Z /\ lookup 12%N e = Some 3%Z
-         /\ rhs_spec FnLib.fsem 4%N (all_rxn_entries ex_model) e = Some 129%Z.
+         /\ rhs_spec FnLib.fsem 4%N (all_rxn_entries ex_model) e = Some 129%Z
+         /\ st_coef c 3%N 9%N = Some (-1)%Z /\ st_coef c 4%N 9%N = Some 8%Z /\ dy_coef c 4%N 9%N = None
+         /\ st_coef c 4%N 10%N = None /\ dy_coef c 4%N 10%N = Some (0%N, [3%N]).
 Proof.
   split; [exact ex_model_WF|].
   eexists. split; [vm_compute; reflexivity|]. split; [vm_compute; reflexivity|].
